@@ -268,6 +268,56 @@ def native_end_to_end(tier):
                 if code != expc:
                     failures.append(dict(key="exit-code-e2e", what="large file (%s) -> exit code %r, expected %r (the API %s it)" % (
                         name, code, expc, "rejects" if exp else "accepts"), args=dict(case=name)))
+        # odd files and odd file names: every named file is judged, and judged as the API judges it
+        cids = {"plain": "d,format,delimited\nf,k,,,1\n", "needs a row": "d,format,delimited\nf,k,,,1\nc,some,DistinctCount,k >= 1\n",
+                "header": "d,format,delimited\nd,header,1\nf,k,,,1\n", "ods": "d,format,ods\nf,k,,,1\n", "excel": "d,format,excel\nf,k,,,1\n",
+                "fixed": "d,format,fixed\nf,k,,,1\n"}
+        odd = {"empty.csv": b"", "newline.csv": b"\n", "blank.csv": b" ", "branches[1].csv": b"toolong\n", "what?.csv": b"toolong\n",
+               "star*.csv": b"toolong\n", "good[2].csv": b"a\n", "-.csv": b"a\n", "sp ace.csv": b"toolong\n", "UPPER.CSV": b"toolong\n"}
+        odd_dir = os.path.join(d, "odd")
+        os.mkdir(odd_dir)
+        for fname, payload in odd.items():
+            open(os.path.join(odd_dir, fname), "wb").write(payload)
+        for cname, ctext in cids.items():
+            cpath = os.path.join(d, "odd_cid.csv")
+            open(cpath, "w").write(ctext)
+            for fname in odd:
+                fpath = os.path.join(odd_dir, fname)
+                n += 1
+                try:
+                    validio.validate(cpath, fpath)
+                    exp = 0
+                except cerrors.DataError:
+                    exp = 1
+                except Exception as e:  # noqa
+                    failures.append(dict(key="exit-code-e2e", what="CID %s, file %r: validate() raised %s: %s" % (cname, fname, type(e).__name__, e),
+                                         args=dict(cid=cname, file=fname)))
+                    continue
+                for argv_files, expc in (([fpath], exp), ([paths["accepted"], fpath], None)):
+                    if expc is None:
+                        try:
+                            validio.validate(cpath, paths["accepted"])
+                            expc = exp
+                        except cerrors.DataError:
+                            expc = 1
+                    with contextlib.redirect_stderr(io.StringIO()):
+                        try:
+                            code = applications.main(["cutplace", "--log", "critical", cpath] + argv_files)
+                        except SystemExit as e:
+                            code = "exit%s" % e.code
+                    if code != expc:
+                        failures.append(dict(key="exit-code-e2e", what="CID %s, files %r -> exit code %r, expected %r (what the API says about each file)" % (
+                            cname, [os.path.basename(x) for x in argv_files], code, expc), args=dict(cid=cname, file=fname)))
+        for missing in ("missing?.csv", "incoming_*.csv", "no[such].csv"):
+            n += 1
+            open(cpath, "w").write(cids["plain"])
+            with contextlib.redirect_stderr(io.StringIO()):
+                try:
+                    code = applications.main(["cutplace", "--log", "critical", cpath, os.path.join(odd_dir, "nowhere", missing)])
+                except SystemExit as e:
+                    code = "exit%s" % e.code
+            if code != 3:
+                failures.append(dict(key="exit-code-e2e", what="missing file named %r -> exit code %r, expected 3" % (missing, code), args=dict(file=missing)))
         # an unreadable file stays exit code 3 whatever the end-of-data checks of the CID would say about no data
         strict_cid = os.path.join(d, "strict_cid.csv")
         open(strict_cid, "w").write("d,format,delimited\nf,k,,,1\nc,some,DistinctCount,k >= 1\n")
